@@ -6,9 +6,9 @@
    components ("" and "." dropped; a leading "/" is absorbed): so the operation
    the parent receives names a path under the root, and for a normalised name it
    is the operation at root/name — to which the refinement theorem applies.
-   With ".." the joined path leaves the root, and Symlink / Link are not joined
-   at all: both refuted with witnesses (Properties/C17.v), replayed on the real
-   code by the harness. *)
+   With ".." the joined path leaves the root: refuted with a witness
+   (Properties/C17.v), replayed on the real code by the harness.  Symlink and Link
+   are joined like every other method since fix 44061d3. *)
 From Apko Require Import Base.Prelude Model.MemFS Spec.FsSpec Model.SubFS Proofs.FsProofs Proofs.FsLaws Proofs.FsAgree Proofs.FsTame.
 Open Scope string_scope. Open Scope list_scope.
 
@@ -52,22 +52,24 @@ Proof.
   destruct root; [discriminate N | reflexivity].
 Qed.
 
-Theorem sub_op_at_root : forall root o, plain_root root = true -> sub_joined o = true ->
+Theorem sub_op_at_root : forall root o, plain_root root = true ->
   forallb no_dotdot (sub_paths o) = true -> sub_op root o = at_root root o.
 Proof.
-  intros root o Hr Hj H.
-  destruct o; try discriminate Hj; cbn [sub_paths forallb] in H; rewrite ?andb_true_r in H; cbn [sub_op at_root];
-    try reflexivity; rewrite (sjoin_keep root _ Hr H); reflexivity.
+  intros root o Hr H.
+  destruct o; cbn [sub_paths forallb] in H; rewrite ?andb_true_r in H; cbn [sub_op at_root];
+    try reflexivity; try (rewrite (sjoin_keep root _ Hr H); reflexivity).
+  (* Link: both names *)
+  apply andb_true_iff in H. destruct H as [Ho Hn]. rewrite (sjoin_keep root _ Hr Ho), (sjoin_keep root _ Hr Hn). reflexivity.
 Qed.
 
 (* hence: one step through the sub-filesystem is the parent's step at root/name,
    and inside the envelope of that operation it is the reference's step there *)
-Theorem sub_step_refines : forall b root s o, plain_root root = true -> sub_joined o = true ->
+Theorem sub_step_refines : forall b root s o, plain_root root = true ->
   forallb no_dotdot (sub_paths o) = true ->
   sub_step b root s o = model_step b s (at_root root o) /\
   (E b s (at_root root o) = true -> sub_step b root s o = spec_step s (at_root root o)).
 Proof.
-  intros b root s o Hr Hj H. unfold sub_step. rewrite (sub_op_at_root root o Hr Hj H). split; [reflexivity|]. apply refines.
+  intros b root s o Hr H. unfold sub_step. rewrite (sub_op_at_root root o Hr H). split; [reflexivity|]. apply refines.
 Qed.
 
 (* lexical confinement: every path the parent is asked about lies under the root,
